@@ -381,7 +381,7 @@ impl Property for C12 {
         "C12"
     }
     fn rule(&self) -> String {
-        "growth: 8 families of programs whose length grows linearly with n (chains of aliases / records / locals / inputs that name the previous definition twice, many outputs reading one input, many txs) are parsed and analysed for n = 4, 6, .. 40 and the thread CPU time must not triple twice in a row per step of 2; grammar: random expansions (depth <= 12, implicit whitespace / comments between tokens of non-atomic rules) of tx3.pest itself, read with pest_meta at run time, so every rule the grammar accepts is exercised; mutation: 12 token-level mutators (delete, duplicate, swap, splice, numeral / hex stretching, multi-byte insertion, keyword / punctuation replacement, truncation, block duplication, renaming) applied 1..3 times to the example corpus and to generated programs; literal-positions (exhaustive): a program with a literal in every position that takes one (policy / asset definitions, thresholds, references, redeemers, datum fields, list elements, validity, signers, metadata keys and values, directive fields) x 7..11 extreme literals per kind (empty / odd / 128..4096-digit hex, numerals around 2^63 and 2^64 and of 40..50 digits, empty / 64 / 65 / 5000-byte and multi-byte strings, UTxO references with odd, short, long ids and indices around 2^64), one position at a time; many-diagnostics: one tx with 21..90 erroneous blocks of ten kinds (undefined names in every position, undefined types, implicit constructors of variants, ill-typed directive fields) in random order; nesting (exhaustive): 36 recursive constructs (incl. constructors nested through a field and closed by a spread, without trailing comma, unclosed) x depth 1..64 (and 4..9 of those depths once more through an unoptimised probe binary on a 2 MiB thread). Oracle: parse_string returns Ok or Err and analyze returns, observed through the panic hook / worker signals / watchdog; termination of the parser is decided on logical steps (pest call limit 2e6 + 5000 per input byte; the valid corpus needs ~5 calls per byte). Non-trivial: the input parses, or fails beyond its first line; distinct = distinct input texts.".into()
+        "growth: 8 families of programs whose length grows linearly with n (chains of aliases / records / locals / inputs that name the previous definition twice, many outputs reading one input, many txs) are parsed and analysed for n = 4, 6, .. 40 and the thread CPU time must not triple twice in a row per step of 2; grammar: random expansions (depth <= 12, implicit whitespace / comments between tokens of non-atomic rules) of tx3.pest itself, read with pest_meta at run time, so every rule the grammar accepts is exercised; mutation: 12 token-level mutators (delete, duplicate, swap, splice, numeral / hex stretching, multi-byte insertion, keyword / punctuation replacement, truncation, block duplication, renaming) applied 1..3 times to the example corpus and to generated programs; literal-positions (exhaustive): a program with a literal in every position that takes one (policy / asset definitions, thresholds, references, redeemers, datum fields, list elements, validity, signers, metadata keys and values, directive fields) x 7..11 extreme literals per kind (empty / odd / 128..4096-digit hex, numerals around 2^63 and 2^64 and of 40..50 digits, empty / 64 / 65 / 5000-byte and multi-byte strings, UTxO references with odd, short, long ids and indices around 2^64), one position at a time; long-flat (exhaustive): flat chains of 1000 / 4096 / 20000 / 100000 infix operators, property accesses or negations (no nesting in the text); many-diagnostics: one tx with 21..90 erroneous blocks of ten kinds (undefined names in every position, undefined types, implicit constructors of variants, ill-typed directive fields) in random order; nesting (exhaustive): 36 recursive constructs (incl. constructors nested through a field and closed by a spread, without trailing comma, unclosed) x depth 1..64 (and 4..9 of those depths once more through an unoptimised probe binary on a 2 MiB thread). Oracle: parse_string returns Ok or Err and analyze returns, observed through the panic hook / worker signals / watchdog; termination of the parser is decided on logical steps (pest call limit 2e6 + 5000 per input byte; the valid corpus needs ~5 calls per byte). Non-trivial: the input parses, or fails beyond its first line; distinct = distinct input texts.".into()
     }
     fn assumptions(&self) -> Vec<String> {
         vec![
@@ -423,6 +423,7 @@ impl Property for C12 {
                 Phase::new("grammar", 12_000, Profile::Checked),
                 Phase::new("mutation", 25_000, Profile::Checked),
                 Phase::new("many-diagnostics", 400, Profile::Checked),
+                Phase::new("long-flat", 12, Profile::Release).exhaustive().budget(60_000),
                 Phase::new("literal-positions", literal_cases().len() as u64, Profile::Checked).exhaustive(),
             ],
             Tier::Thorough => vec![
@@ -432,6 +433,7 @@ impl Property for C12 {
                 Phase::new("mutation", 1_200_000, Profile::Checked),
                 Phase::new("mutation-release", 300_000, Profile::Release),
                 Phase::new("many-diagnostics", 20_000, Profile::Checked),
+                Phase::new("long-flat", 12, Profile::Release).exhaustive().budget(60_000),
                 Phase::new("literal-positions", literal_cases().len() as u64, Profile::Checked).exhaustive(),
             ],
         }
@@ -513,6 +515,21 @@ impl Property for C12 {
                 if idx % 64 == 9 {
                     ctx.sample(|| json!({"construct": n.name, "depth": d, "source": src}));
                 }
+            }
+            "long-flat" => {
+                // flat chains (no nesting in the text at all) of thousands of operators: the parser builds a
+                // left-deep tree out of them and everything downstream recurses over it
+                let lens = [1_000usize, 4_096, 20_000, 100_000];
+                let n = lens[(idx % 4) as usize];
+                let (name, expr) = match idx / 4 {
+                    0 => ("infix", format!("1{}", " + 1".repeat(n))),
+                    1 => ("property", format!("x{}", ".b".repeat(n))),
+                    _ => ("negate", format!("{}x", "!".repeat(n))),
+                };
+                let src = wrap_expr(expr);
+                ctx.count(&format!("long-flat/{name}"));
+                self.judge(ctx, &src, "long-flat", &format!("long-flat:{name}"));
+                ctx.nontrivial(fnv64(src.as_bytes()));
             }
             "literal-positions" => {
                 // one extreme literal (over-long, odd-length, out of range, empty, multi-byte) in one literal
